@@ -287,6 +287,8 @@ INTERPRETED = {
     "re.match": lambda p, s_: __import__("re").match(p, s_),
     ".group": lambda m, *a: m.group(*[int(x) for x in a]),
     "listcomp": lambda elem, it: elem,
+    "reduce:min": lambda x, ax=None: np.min(np.asarray(x, dtype=float)),
+    "reduce:max": lambda x, ax=None: np.max(np.asarray(x, dtype=float)),
     ".astype": lambda x, t=None: (np.trunc(np.asarray(x, dtype=float)) if "int" in str(t) else x),
     "builtins.all": lambda x: bool(x),
     "builtins.any": lambda x: bool(x),
